@@ -283,7 +283,8 @@ def _c14_jobs(tier):
 
 PLANS['C14'] = dict(
     engine='adapt', level='exploration', jobs=_c14_jobs, exhaustive=True,
-    minimums=lambda t: {'call_cases': 30000 if t == 'quick' else 120000, 'registry_hook_cases': 200, 'class_object_cases': 200, 'reentrant_hook_cases': 200, 'registry_hook_changes_above': 50},
+    minimums=lambda t: {'call_cases': 30000 if t == 'quick' else 120000, 'registry_hook_cases': 200, 'class_object_cases': 200, 'reentrant_hook_cases': 200, 'registry_hook_changes_above': 50,
+                        'interface_classes_collected_between_cases': 100},
     rule='Complete enumeration of the case product: __conform__ in {absent, returns None, returns value (plain method, staticmethod, function / functools.partial / callable object in the instance dict), body raises '
          'ValueError/TypeError/AttributeError/KeyError (also TypeError/AttributeError from a staticmethod, a function or a callable object in the '
          'instance dict), attribute access raises AttributeError / RuntimeError} x provided in '
